@@ -14,7 +14,7 @@ func init() {
 		ID:    "C02",
 		Level: "exploration",
 		Rule: "inputs = atom catalogue, /repo testdata, llvm-stress programs, generated modules and, for each of them, W6 respellings (hex integers, unsigned-decimal spellings of negative integers, hex floats, redundantly quoted names, comments/blank lines, shuffled definitions); for every input x the parser accepts: y=print(parse x) must be accepted, print(parse y) must equal y byte for byte, and the object graphs of parse(x) and parse(y) must serialise identically (identity-bearing objects in bijection, the rest by value). " +
-			"llir-only: 14 hand-written inputs LLVM 14 rejects and the parser may accept (attribute-group spelling of the alignment in a function header, out-of-range and inexact decimal floats, operand or callee type text disagreeing with the definition, a named void call, out-of-range integer literals, repeated switch cases ...) go through the same three comparisons: the property quantifies over every input the parser accepts. " +
+			"llir-only: 20 hand-written inputs LLVM 14 rejects and the parser may accept (attribute-group spelling of the alignment in a function header, out-of-range and inexact decimal floats, hexadecimal doubles that are not values of half/float, operand or callee type text disagreeing with the definition, a named void call, out-of-range integer literals, repeated switch cases ...) go through the same three comparisons: the property quantifies over every input the parser accepts. " +
 			"non-trivial = an accepted input whose printed form differs from the input text (a normalisation happened); distinct by digest of x",
 		Gen:           genC02,
 		MinNontrivial: 100,
@@ -56,6 +56,13 @@ func c02LlirOnly(r *fw.Rec) {
 		"half-decimal-inexact":   "@j = global half 0.1\n",
 		"float-decimal-inexact":  "@k = global float 0.1\n",
 		"float-decimal-overflow": "@l = global float 1.0e39\n",
+		// 16-digit hexadecimal doubles that are not values of the kind, decimals in the subnormal range of the kind
+		"half-hex-double-below-range":  "@m = global half 0x3E60000000000000\n",
+		"half-hex-double-inexact":      "@m = global half 0x3FF0040000000000\n",
+		"float-hex-double-above-range": "@n = global float 0x47F0000000000000\n",
+		"float-hex-double-inexact":     "@n = global float 0x3FF0000010000000\n",
+		"float-decimal-subnormal":      "@o = global float 1.0e-40\n",
+		"half-decimal-subnormal":       "@p = global half 0.00000001\n",
 		// the type written in front of an operand disagrees with its definition
 		"operand-type-text-disagrees": "define i32 @f(i32* %p) {\n  %r = atomicrmw add i64* %p, i64 1 seq_cst\n  %s = add i64 %r, 1\n  ret i64 %s\n}\n",
 		"callee-type-text-disagrees":  "declare i32 @g()\ndefine i64 @f() {\n  %r = call i64 @g()\n  ret i64 %r\n}\n",
